@@ -314,7 +314,7 @@ func main() {
 	r := ev.New("C07", "exploration")
 	r.Rule = "every lattice path (vertex list, repeated vertices allowed) up to the stated length on the 7x7 integer grid, against the stated boxes, in closed and open mode; each choice vector is a different (box, mode, path), so executions are distinct by construction; non-trivial = the path is partly inside and partly outside the box (something is cut) or more than one piece comes back"
 	r.Assume = []string{
-		"zero-length pieces (a segment touching a corner) are validated for position only: the point-set and length clauses cannot distinguish them",
+		"zero-length pieces where a segment merely touches the box between its vertices are validated for position only (the length clause cannot see them); an input vertex of a line of two or more vertices that lies in the closed box must be a point of some output piece",
 		"piece boundaries are constrained only as the statement does: wholly-inside lines come back as one identical piece, re-clipping a piece is the identity, open mode must split at boundary contacts; other joins/splits are free",
 		"output coordinates are compared with the exact rational clip within 1e-9",
 	}
